@@ -15,6 +15,8 @@ use std::io::Write;
 use std::net::TcpStream;
 use std::time::Duration;
 
+/// index of the caller that can replace its image (present with the default helper set)
+pub const CHAMELEON: u8 = 7;
 pub const HELPER_NAMES: &[&str] = &["curl", "python3", "waagent", "Curl", "cur"];
 pub const UIDS: &[u64] = &[0, 1001, 1002, 1003, 1004];
 /// users with multi-byte names (C13 only)
@@ -95,6 +97,7 @@ impl Rig {
     /// Enter the namespaces (must be the first thing the process does), start mocks, helpers and the proxy.
     pub fn start(helper_specs: Option<Vec<(String, Vec<String>)>>) -> Result<Rig, String> {
         ns::enter(&ns::Options::default())?;
+        let helper_specs_given = helper_specs.is_some();
         let specs = helper_specs.unwrap_or_else(|| {
             let mut v: Vec<(String, Vec<String>)> = HELPER_NAMES.iter().map(|n| (n.to_string(), vec!["3600".to_string()])).collect();
             // two more callers that share an executable with an earlier one and differ only in their command line
@@ -102,7 +105,11 @@ impl Rig {
             v.push(("python3".to_string(), vec!["script-b.py".to_string(), "--flag".to_string()]));
             v
         });
-        let helpers = Helpers::spawn(&specs)?;
+        let mut helpers = Helpers::spawn(&specs)?;
+        // the last caller can replace its image with exec (same pid): curl <-> python3
+        if !helper_specs_given {
+            helpers.spawn_chameleon("curl", "python3", &["3700".to_string()])?;
+        }
         let mock = Mock::new();
         mock.listen("wireserver", "168.63.129.16:80")?;
         mock.listen("hostga", "168.63.129.16:32526")?;
@@ -165,8 +172,8 @@ impl Rig {
     pub fn claims_of(&self, rec: &Rec) -> GClaims {
         let uid = UIDS[rec.uid_sel as usize % UIDS.len()];
         let (user, groups) = ns::user_of(uid);
-        let h = &self.helpers.procs[rec.helper_sel as usize % self.helpers.procs.len()];
-        GClaims { uid, user, groups, proc_name: h.0.clone(), exe: h.1.clone(), cmdline: h.2.clone(), elevated: rec.is_root }
+        let h = self.helpers.ident(rec.helper_sel as usize % self.helpers.procs.len());
+        GClaims { uid, user, groups, proc_name: h.0, exe: h.1, cmdline: h.2, elevated: rec.is_root }
     }
 
     pub fn entry_of(&self, rec: &Rec) -> verif_hooks::Entry {
